@@ -124,7 +124,16 @@ func (c *core) execFunc() (*Response, error) {
 		}
 		return resp, nil
 	case <-c.ctx.Done():
-		atomic.SwapInt32(&done, 1)
+		if atomic.SwapInt32(&done, 1) == 1 {
+			// The worker has already taken the flag: it is filling resp and will send on errCh.
+			// Take its completion; releasing resp and errCh now would hand them to the next
+			// request while the worker still writes them.
+			if err := <-errCh; err != nil {
+				ReleaseResponse(resp)
+				return nil, err
+			}
+			return resp, nil
+		}
 		ReleaseResponse(resp)
 		return nil, ErrTimeoutOrCancel
 	}
